@@ -22,6 +22,7 @@ ASSUMPTIONS = {
 }
 MANIFEST_TEXT, NOT_APPLICABLE = {}, {}
 FIX_COMMITS = []
+CLAIMED = []
 
 for _f in sorted(glob.glob(os.path.join(os.path.dirname(os.path.abspath(__file__)), "plans", "*.py"))):
     _spec = importlib.util.spec_from_file_location("bcv_plan_" + os.path.basename(_f)[:-3], _f)
@@ -61,6 +62,7 @@ for _f in sorted(glob.glob(os.path.join(os.path.dirname(os.path.abspath(__file__
     MANIFEST_TEXT.update(getattr(_m, "MANIFEST_TEXT", {}))
     NOT_APPLICABLE.update(getattr(_m, "NOT_APPLICABLE", {}))
     FIX_COMMITS.extend(getattr(_m, "FIX_COMMITS", []))
+    CLAIMED.extend(getattr(_m, "CLAIMED", []))
 
 
 def groups_for(prop, tier, seed):
